@@ -1,10 +1,14 @@
 package main
 
 import (
+	"encoding/json"
 	"errors"
 	"fmt"
+	"os"
 	"sort"
 	"strings"
+	"sync/atomic"
+	"time"
 
 	"code.gopub.tech/tpl/exp"
 	"code.gopub.tech/tpl/html"
@@ -237,8 +241,44 @@ type mgr struct {
 	names []string
 }
 
+// Breadcrumb: a fatal error of the Go runtime (stack overflow, concurrent map write, out of memory) kills the harness
+// without running any deferred function, so the input that did it is written to a file BEFORE it is executed; `check`
+// reads the file when the harness dies and reports that input as the replay of the violation.
+var crumbFile *os.File
+var crumbAt atomic.Int64 // unix nanoseconds of the last crumb; 0 = nothing is being executed
+
+// startWatchdog: an input on which the engine does not come back (a directive that re-executes its own element for ever)
+// cannot be interrupted from inside the process; when one input has been running for `limit` the harness gives up with
+// exit status 3 and `check` reports the input in the breadcrumb file as the failing one.
+func startWatchdog(limit time.Duration) {
+	go func() {
+		for {
+			time.Sleep(time.Second)
+			if t := crumbAt.Load(); t != 0 && time.Since(time.Unix(0, t)) > limit {
+				fmt.Printf("fatal error: harness watchdog: one input has been executing for more than %v\n", limit)
+				os.Exit(3)
+			}
+		}
+	}()
+}
+
+func crumb(entry string, input any) {
+	crumbAt.Store(time.Now().UnixNano())
+	if crumbFile == nil {
+		return
+	}
+	b, err := json.Marshal(J{"entry": entry, "input": input})
+	if err != nil {
+		b = []byte(fmt.Sprintf(`{"entry":%q,"input":"(not encodable)"}`, entry))
+	}
+	crumbFile.Truncate(0)
+	crumbFile.WriteAt(b, 0)
+}
+
 // implRender loads, looks up and executes once; failAt<0 = writer never fails.
 func implRender(rc *renderCase, failAt int) (out renderOut) {
+	crumb("load+execute", rc.toJ())
+	defer crumbAt.Store(0)
 	log := &callLog{}
 	data, global, _ := rc.goData(log)
 	m, lerr, p := implLoad(rc, global)
